@@ -52,6 +52,9 @@ type File struct {
 func StrField(name string, num int32) *descriptorpb.FieldDescriptorProto {
 	return fld(name, num, descriptorpb.FieldDescriptorProto_TYPE_STRING, "", false)
 }
+func MsgField(name string, num int32, fullType string) *descriptorpb.FieldDescriptorProto {
+	return fld(name, num, descriptorpb.FieldDescriptorProto_TYPE_MESSAGE, "."+fullType, false)
+}
 func I64Field(name string, num int32) *descriptorpb.FieldDescriptorProto {
 	return fld(name, num, descriptorpb.FieldDescriptorProto_TYPE_INT64, "", false)
 }
